@@ -270,6 +270,8 @@ def half_rules(ctx):
 def eof_rules(ctx, rule):
     """end of stream while a request head is being read: the head reader reports an error, and next() then returns None without answering"""
     facts = ctx.facts
+    import request_rules as RR_
+    RR_.rmodel(facts)
     PM = PR.pmodel(facts)
     rd = PM.rd
     seen = []
@@ -330,7 +332,7 @@ def eof_rules(ctx, rule):
             if timed_out:
                 continue
             n += 1
-            sent = [short(e[2]) for e in p.calls() if re.search(r"raw_print|Write>::write|write_all", e[2])]
+            sent = [short(e[2]) for e in p.calls() if re.search(RR_.RAW_PRINT + r"|Write>::write|write_all", e[2])]
             ok = p.end[0] == "return" and p.ret() == ("none",) and not sent
             ctx.ob(rule, "%s|eof-ends-silently" % PM.cc_next.id, "after end of stream (or any read error other than a timeout) next() returns None and sends nothing", ok, "%s:%d" % (f.file, f.line),
                    None if ok else "%s sent=%s" % (Q._ret_str(p), sent))
